@@ -210,9 +210,8 @@ inline constexpr void Conversion<Unit::SpecificEnergy, Unit::SpecificEnergy::Inc
 }
 
 template <typename NumericType>
-inline const std::
-    map<Unit::SpecificEnergy, std::function<void(NumericType* values, const std::size_t size)>>
-        MapOfConversionsFromStandard<Unit::SpecificEnergy, NumericType>{
+inline const ConversionTable<Unit::SpecificEnergy, NumericType>
+    MapOfConversionsFromStandard<Unit::SpecificEnergy, NumericType>{
           {Unit::SpecificEnergy::JoulePerKilogram,
            Conversions<Unit::SpecificEnergy, Unit::SpecificEnergy::JoulePerKilogram>::
                FromStandard<NumericType>},
@@ -228,8 +227,7 @@ inline const std::
 };
 
 template <typename NumericType>
-inline const std::map<Unit::SpecificEnergy,
-                      std::function<void(NumericType* const values, const std::size_t size)>>
+inline const ConversionTable<Unit::SpecificEnergy, NumericType>
     MapOfConversionsToStandard<Unit::SpecificEnergy, NumericType>{
       {Unit::SpecificEnergy::JoulePerKilogram,
        Conversions<Unit::SpecificEnergy, Unit::SpecificEnergy::JoulePerKilogram>::
